@@ -298,13 +298,17 @@ Fixpoint clear_marks (fuel : nat) (m : mem) (cur hend : Z) : option mem :=
       else Some (mset (mset m (cur + 16) 0) (cur + 24) 0)
   end.
 
-Definition hp_deallocall (c : hcfg) (s : hstate) : hres hstate :=
-  if h_initialized s then
+(* parametric in what the source does: [clears] is scraped from HeapAllocatorT:deallocall
+   (Gen.DEALLOCALL_CLEARS_MARKS: the walk that resets node.next / node.prev is there or not) *)
+Definition hp_deallocall_p (clears : bool) (c : hcfg) (s : hstate) : hres hstate :=
+  if clears && h_initialized s then
     match clear_marks (heap_fuel c) (h_mem s) (heap_start c) (heap_end c) with
     | Some m => HOk (mkhstate false (repeat 0 (Z.to_nat BIN_COUNT)) m)
     | None => HFuel
     end
   else HOk (mkhstate false (repeat 0 (Z.to_nat BIN_COUNT)) (h_mem s)).
+
+Definition hp_deallocall (c : hcfg) (s : hstate) : hres hstate := hp_deallocall_p DEALLOCALL_CLEARS_MARKS c s.
 
 Definition hp_realloc (c : hcfg) (s : hstate) (p newsize oldsize : Z) : hres (hstate * Z) :=
   match ensure_init c s with
